@@ -88,7 +88,7 @@ META = {
                   'performSpatiallyAdaptiv/evaluate_operation/compute_solutions', 'Integration.evaluate_area/process_removed_objects', 'TrapezoidalGrid (local)', 'StandardCombi.__call__'],
     'bounds': BOUNDS,
     'assumptions': ['P3 stand-ins (documented stubs): calc_error of the strategy (parent estimates) returns solver-chosen 0/1 errors; compute_benefits_for_operations returns a solver-chosen '
-                    'extend-or-split preference; get_twin_error returns arbitrary non-negative values', 'domains [0,1]^d and [-3,6]^d; geometry concrete (dyadic)',
+                    'extend-or-split preference; get_twin_error returns arbitrary non-negative values', 'domains [0,1]^d, [-3,6]^d and [0.3,0.9]^d; geometry concrete',
                     'coarsen_grid harness: 0 <= coarsening <= lmax - lmax0'],
     'outside': ['coarsening version 3', 'no_initial_splitting (the code asserts False)', 'd >= 4 histories', 'the real error/benefit estimates (nonlinear in F)'],
 }
@@ -111,6 +111,9 @@ def jobs(tier):
     cfgs.append((2, 1, 2, (0.0, 1.0), True, 0, 1, True, False))
     cfgs.append((2, 1, 2, (0.0, 1.0), True, 1, 1, True, False))
     cfgs.append((2, 1, 2, (0.0, 1.0), True, 0, 1, False, True))
+    # a domain whose bounds are not dyadic rationals: the lifted run treats the floats 0.3, 0.9 as the exact rationals they denote; every path is
+    # additionally validated on the real float code (validate=1), where the areas must still tile the domain without gaps or overlaps
+    cfgs.append((2, 1, 2, (0.3, 0.9), True, 0, 1, False, False))
     if not q:
         cfgs += [(2, 1, 3, (0.0, 1.0), True, v, 1, False, False) for v in (0, 1, 2)]
         cfgs += [(2, 2, 3, (0.0, 1.0), True, v, 1, False, False) for v in (0, 1, 2)]
@@ -126,7 +129,7 @@ def jobs(tier):
             cap = 26 if q else 40
         js.append(Job('hist[d=%d,l=%d-%d,v=%d,nrbe=%d,%s%s%s,box=%s]' % (d, lmin, lmax, version, nrbe, 'b' if boundary else 'nb', ',auto' if auto else '', ',single' if sd else '', box),
                       history, {'d': d, 'lmin': lmin, 'lmax': lmax, 'box': list(box), 'boundary': boundary, 'version': version, 'nrbe': nrbe, 'auto': auto, 'single_dim': sd,
-                                'pool': (1 if (q and (auto or sd)) else 2), 'cap': cap}, validate=(7 if q else 3), budget_s=(600 if q else 3000)))
+                                'pool': (1 if (q and (auto or sd)) else 2), 'cap': (45 if box == (0.3, 0.9) and q else cap)}, validate=(1 if box == (0.3, 0.9) else (7 if q else 3)), budget_s=(600 if q else 3000)))
     dims = (2, 3) if q else (2, 3, 4)
     for d in dims:
         for lmin in ((1, 2) if q else (1, 2, 3)):
